@@ -208,6 +208,26 @@ Example C02_ex_refund_must_equal_burn :
   total 1 (run_tx l ([Burn (bal 1 1) 1] ++ effect_eth_redeem_refund 1 1 100000)) = 100499.
 Proof. vm_compute. auto. Qed.
 
+(* ---------------- OLVM transactions: transfer, call, contract creation at the transaction level ---------------- *)
+Theorem C02_no_creation_olvm : forall sender target fp value reverted fee ops, effect_olvm sender target fp value reverted fee = Some ops ->
+  no_creation ops /\ credits_ok ops /\ takes_only_from ops [sender].
+Proof. exact olvm_stmt. Qed.
+Print Assumptions C02_no_creation_olvm.
+(* a contract creation conserves every total WHATEVER the new contract's address already held, and the contract ends with exactly
+   what the address held plus the endowment *)
+Theorem C02_olvm_creation_conserves : forall (l : gmap key Z) sender target fp value fee ops c, sender <> target ->
+  effect_olvm sender target fp value false fee = Some ops -> forall l', apply_ops l ops = Some l' ->
+  total c l' = total c l /\ lget l' (bal target CUR_OLT) = lget l (bal target CUR_OLT) + value.
+Proof. exact olvm_create_conserves. Qed.
+Print Assumptions C02_olvm_creation_conserves.
+Example C02_ex_creation_at_a_funded_address :
+  let l := ladd (ladd ∅ (bal 1 0) 1000) (bal 7 0) 400 in
+  match effect_olvm 1 7 9 5 false 30 with
+  | Some ops => lget (run_tx l ops) (bal 7 0) = 405 /\ total 0 (run_tx l ops) = 1400
+  | None => False
+  end.
+Proof. vm_compute. auto. Qed.
+
 (* a transaction that creates nothing does not raise the total; lifted to blocks / histories by C02_block_total_bound *)
 Theorem C02_no_creation_total : forall c l ops, no_creation ops -> total c (run_tx l ops) <= total c l.
 Proof. exact no_creation_total. Qed.
